@@ -110,11 +110,22 @@ def source_line_map(text):
     of the bookkeeping (`original`, `loc`) the preprocessor attaches.  None when the text is not of that shape."""
     import re
     lines = []
-    for no, raw in enumerate(text.split("\n"), 1):
+    # a string literal may run over several physical lines: the operation stands on the line where it begins, and every
+    # line break inside the literal still counts for what follows (seed C12i skipped the characters of a literal in one
+    # piece, line breaks included)
+    phys, logical, i = text.split("\n"), [], 0
+    while i < len(phys):
+        no, raw = i + 1, phys[i]
+        while raw.count('"') % 2 == 1 and i + 1 < len(phys):
+            i += 1
+            raw += "\n" + phys[i]
+        logical.append((no, raw))
+        i += 1
+    for no, raw in logical:
         t = raw.strip()
         if not t or t.startswith("//") or t.startswith("#"):
             continue
-        m = re.match(r"^([A-Za-z_]+)\((.*)\)$", t)
+        m = re.match(r"^([A-Za-z_]+)\((.*)\)$", t, re.S)
         if not m or t.count("(") != 1:
             return None
         name, args = m.group(1), [a.strip() for a in m.group(2).split(",")] if m.group(2).strip() else []
